@@ -492,11 +492,40 @@ func (g *gen) rewritePkgRefs(info *types.Info, node ast.Node) ast.Node {
 		}
 		return false
 	}
-	var scopeStack []*types.Scope
 	pkgScope := g.pkg.Types.Scope()
+	// A replacement name must not be spelled anywhere in the copied node:
+	// otherwise it could capture, or be captured by, another identifier of an
+	// enclosing, sibling or nested scope.
+	present := make(map[string]bool)
+	ast.Inspect(node, func(n ast.Node) bool {
+		if id, ok := n.(*ast.Ident); ok {
+			present[id.Name] = true
+		}
+		return true
+	})
+	pickName := func(objName string) string {
+		return disambiguate(objName, func(n string) bool {
+			return g.nameInFileScope(n) || inNewNames(n) || present[n]
+		})
+	}
+	// typeSwitchNames maps the position of the symbolic variable of a type
+	// switch (switch x := y.(type)) to its replacement. The variable has no
+	// object of its own; each clause declares an implicit object at that
+	// position, and all of them must get the same new name.
+	typeSwitchNames := make(map[token.Pos]string)
 	node = astutil.Apply(node, func(c *astutil.Cursor) bool {
-		if scope := info.Scopes[c.Node()]; scope != nil {
-			scopeStack = append(scopeStack, scope)
+		if ts, ok := c.Node().(*ast.TypeSwitchStmt); ok {
+			if as, ok := ts.Assign.(*ast.AssignStmt); ok && len(as.Lhs) == 1 {
+				if id, ok := as.Lhs[0].(*ast.Ident); ok && id.Name != "_" && info.Defs[id] == nil {
+					if pos := id.Pos(); start <= pos && pos < end && (g.nameInFileScope(id.Name) || inNewNames(id.Name)) {
+						newName := pickName(id.Name)
+						typeSwitchNames[pos] = newName
+						present[newName] = true
+						as.Lhs[0] = ast.NewIdent(newName)
+					}
+				}
+			}
+			return true
 		}
 		id, ok := c.Node().(*ast.Ident)
 		if !ok {
@@ -513,6 +542,12 @@ func (g *gen) rewritePkgRefs(info *types.Info, node ast.Node) ast.Node {
 			c.Replace(ast.NewIdent(n))
 			return false
 		}
+		if n, ok := typeSwitchNames[obj.Pos()]; ok && info.Defs[id] == nil {
+			// A use of the symbolic variable of a renamed type switch.
+			newNames[obj] = n
+			c.Replace(ast.NewIdent(n))
+			return false
+		}
 		if par := obj.Parent(); par == nil || par == pkgScope {
 			// Don't rename methods, field names, or top-level identifiers.
 			return true
@@ -524,30 +559,12 @@ func (g *gen) rewritePkgRefs(info *types.Info, node ast.Node) ast.Node {
 		if pos := obj.Pos(); pos < start || end <= pos || !(g.nameInFileScope(objName) || inNewNames(objName)) {
 			return true
 		}
-		newName := disambiguate(objName, func(n string) bool {
-			if g.nameInFileScope(n) || inNewNames(n) {
-				return true
-			}
-			if len(scopeStack) > 0 {
-				// Avoid picking a name that conflicts with other names in the
-				// current scope.
-				_, obj := scopeStack[len(scopeStack)-1].LookupParent(n, token.NoPos)
-				if obj != nil {
-					return true
-				}
-			}
-			return false
-		})
+		newName := pickName(objName)
 		newNames[obj] = newName
+		present[newName] = true
 		c.Replace(ast.NewIdent(newName))
 		return false
-	}, func(c *astutil.Cursor) bool {
-		if info.Scopes[c.Node()] != nil {
-			// Should be top of stack; pop it.
-			scopeStack = scopeStack[:len(scopeStack)-1]
-		}
-		return true
-	})
+	}, nil)
 	return node
 }
 
